@@ -499,7 +499,7 @@ fn batch<E: Engine>(args: &Args) -> i32 {
         if args.dump.is_some() {
             cmd.arg("--dump").arg(dump_path(w));
         }
-        cmd.stdout(Stdio::piped()).stderr(Stdio::null()).stdin(Stdio::null());
+        cmd.stdout(Stdio::piped()).stderr(if std::env::var("VERIF_VERBOSE").is_ok() { Stdio::inherit() } else { Stdio::null() }).stdin(Stdio::null());
         let mut child = cmd.spawn().unwrap_or_else(|e| harness_error(&format!("spawn worker: {e}")));
         let out = child.stdout.take().unwrap();
         let hang_secs = info.hang_secs.max(1);
